@@ -219,6 +219,23 @@ Qed.
 Theorem accepted_names_routed i o r : auth i = Ok o -> a_routed i = Some r -> nth 1 (a_args i) [] = r.
 Proof. intros Ho Hr. apply auth_sound in Ho as (n & kt & _ & _ & _ & H3 & _). apply H3, Hr. Qed.
 
+(* ---- F23 ---------------------------------------------------------------------------------- *)
+(* the check as it was before the repair F23: only the name inside the payload is compared *)
+Definition without_routed (i : authin) : authin :=
+  AuthIn (a_argc i) (a_fn i) (a_args i) (a_cc i) (a_ch i) (a_acl i) (a_keys i) (a_sigs i) None.
+(* a request signed for chaincode "c", delivered by a peer to chaincode "v" of the same channel in a proposal whose payload
+   names "c": the old check accepts it, the present one refuses it *)
+Theorem payload_name_only_refuted :
+  exists i o r, a_routed i = Some r /\ nth 1 (a_args i) [] <> r /\ auth (without_routed i) = Ok o /\ forall o', auth i <> Ok o'.
+Proof.
+  set (k1 := [107; 49]%N). set (fn := [102]%N). set (cc := [99]%N). set (vv := [118]%N).
+  set (base := [[]; cc; cc; [49; 48]%N; [48; 97]%N; [49; 55]%N; k1]).
+  set (msg := fn ++ concat base).
+  set (i := AuthIn 3 fn (base ++ [[115]%N]) cc cc (AclOk 9 false false 1 [0%N]) [(k1, KI 1 0 false)] [SigBy 1 0 msg] (Some vv)).
+  exists i. eexists. exists vv. split; [reflexivity|]. split; [vm_compute; discriminate|]. split; [vm_compute; reflexivity|].
+  intros o' H. apply (retarget_rejected i) with (o := o'); [|exact H]. right. right. exists vv. split; [reflexivity|vm_compute; discriminate].
+Qed.
+
 (* ---- distinct signers ------------------------------------------------------------------- *)
 (* the presented key strings at the positions that hold a non-blank genuine signature *)
 Fixpoint genuine_keys (keyargs : list (list N)) (kis : list (option keyinfo)) (sigargs : list (list N))
